@@ -214,17 +214,17 @@ class Machine:
 
     def do_call(self, pc, new):
         self.ra = float(pc + 1)
-        self.shadow.append((pc + 1, self.sp, pc))
+        self.shadow.append((pc + 1, self.sp, pc, new))
         self.calls_executed += 1
         self.max_depth = max(self.max_depth, len(self.shadow))
         self.goto(pc, new, "call")
 
     def do_return(self, pc, tgt):
         if self.shadow:
-            exp, sp0, cpc = self.shadow.pop()
-            self.ret_events.append((pc, tgt, exp, self.sp, sp0, cpc, len(self.shadow) + 1))
+            exp, sp0, cpc, ctgt = self.shadow.pop()
+            self.ret_events.append((pc, tgt, exp, self.sp, sp0, cpc, len(self.shadow) + 1, ctgt))
         else:
-            self.ret_events.append((pc, tgt, None, self.sp, None, None, 0))
+            self.ret_events.append((pc, tgt, None, self.sp, None, None, 0, None))
         self.goto(pc, tgt, "ret")
 
     # ---- run
